@@ -45,6 +45,8 @@ def run(run):
                              strata_heavy=({"ParCons(1,BioConsert)": [("comp3plus1", 4)]} if run.thorough else {}))
     items += sweep.history_items(run, [c for c in cfgs if c not in sweep.HEAVY or run.thorough], ["wellformed"], 4 if run.thorough else 2)
     run.pmap("sweep.run_item", sweep.run_item, sweep.order_items(items), chunksize=1)
+    tc = sweep.two_calls_items(run, cfgs, ["wellformed"], 3 if run.thorough else 1)
+    run.pmap("two_calls", sweep.two_calls_item, tc, chunksize=1)
     run.part("validate_engine_f", lambda: sweep.validate_engine_f(run, 40 if run.thorough else 14))
 
     def judge(job, o, base):
@@ -61,6 +63,8 @@ def run(run):
 
 
 def replay(p):
+    if "two_calls" in p:
+        return sweep.replay_two_calls(p, sweep.judge_wellformed)
     if p["signature"]["site"] in ("_change_bucket", "_add_bucket"):
         return bk.replay_kernel(p)
     return sweep.replay(p)
